@@ -201,7 +201,11 @@ func (c *concReader) seek(offset int64, whence int, limit int64) (int64, error) 
 	if limit > c.decompressedSize {
 		limit = c.decompressedSize
 	}
-	c.posLimit = limit
+	if c.posLimit != limit {
+		// The region of interest sent to the Manager ends at the old limit.
+		c.posLimit = limit
+		c.seekResolved = false
+	}
 
 	return pos, nil
 }
